@@ -462,7 +462,7 @@ PROPS = {
     "C01": dict(
         outside="boards with >16 pieces or >8 pawns per side; lists beyond SmallVec's inline capacity inside one stage harness (a spill is a reported failure); the slider stage beyond king + 2 own pieces (opponent side fully symbolic); two real stages are never run back to back",
         explanation="Composition: every stage of generate_valid_moves meets its contract against the reference rules (c01_ep, c01_castle, c01_pawn_*, c01_expand*, c01_slider, c01_leaper*, m5_*, c01_filter_* per move kind, c01_filter_pair_*), and the wiring lemmas (c01_wire_*: all six stages stubbed; c01_wire_pawn_*: the four pawn sub-stages stubbed) show the stages are called once each with the caller's board and colour, filtered last, and returned. The attack map is an arbitrary bitboard in the castle / filter stages; its exactness is a1_union + c01_pawn_attacks + c01_slider + c01_leaper + C11.",
-        title="Generated moves are exactly the legal moves of chess", jobs=16, jobs_thorough=8, jobs_heavy=3, mem_gb=14, timeout_thorough=4500,
+        title="Generated moves are exactly the legal moves of chess", jobs=16, jobs_thorough=8, jobs_heavy=3, mem_gb=14, timeout_thorough=7200,
         technique=TECH + "; compositional: per-stage contracts against independent reference rules + a wiring lemma with all stages stubbed",
         level_text="Bounded model checking, compositional. The whole generator cannot be symbolically executed (measured), so each stage of generate_valid_moves is checked on fully symbolic boards against independent reference rules (en passant, castling conditions, pawn pushes/captures/promotions, leaper tables, slider stage, target expansion, legality filter per move kind), and two wiring lemmas on the real generate_valid_moves / generate_pawn_moves with every stage stubbed show the stages are composed as the argument assumes. The attack map is an arbitrary bitboard in the castle and filter stages; its exactness is discharged by the A1 lemmas and C11.",
         level_note="Never runs two real stages back to back: 'each stage meets its contract' and 'the stages are wired as shown' => 'output is the legal set' is a propositional step. SmallVec's heap-spill path is cut (a spill inside a harness is a reported failure). Boards with >16 pieces or >8 pawns per side are outside the claim. Trusted: Kani/CBMC/CaDiCaL, reference rules.",
@@ -470,7 +470,7 @@ PROPS = {
     "C11": dict(
         outside="masks with more than 3 (quick) / 4 (thorough) bits in the make_table loop lemma; the precompile crate's own functions (a changed generator is caught through M1 on the draw it produces); termination of the magic search",
         explanation="M1 (per square, all 2^64 occupancies x all mask subsets sharing the slot: what make_table writes is the reference ray set; segments disjoint and in range), M2 (the ray walker equals the reference rays), M3 (MIR/z3: the fill loop visits every subset and writes table[magic_index(b)] = slider_moves(b)), M5 (knight / king tables), on the constants of this run's build and (thorough) of the builds under <repo>/target.",
-        title="Attack geometry tables are exact for every square, occupancy and build", jobs=16, jobs_thorough=8, timeout_thorough=4500,
+        title="Attack geometry tables are exact for every square, occupancy and build", jobs=16, jobs_thorough=8, timeout_thorough=7200,
         technique=TECH + "; per-square all-occupancy queries over this build's real magic constants (2^64 occupancies x all mask subsets per square), reference ray walker as oracle; plus a bounded loop lemma for make_table decided by z3 over the function's MIR (symbolic executor of the nightly MIR dump, bit-vector queries)",
         level_text="Bounded model checking over the build-generated constants: for each of the 128 (piece, square) pairs the solver shows that for every 64-bit occupancy and every mask subset that shares its slot, the value make_table writes (slider_moves) equals the reference ray walk -- so last-writer-wins cannot hurt and extra pieces elsewhere do not matter; segments are disjoint and in range; slider_moves equals the reference rays for symbolic square and blockers; knight/king tables equal the reference for every square. Each check run sees a fresh draw of the constants (the build script runs inside the Kani build).",
         level_note="make_table's fill loop is decided on its MIR by z3 for masks of <= 3 bits (one arbitrary square and entry; slider_moves / magic_index uninterpreted there, their contracts are M1/M2); CBMC cannot get through make_table (measured). The generator crate's own functions (precompile) are not encoded: a changed generator is caught through M1 on the draw it produces, which every run regenerates. The build script's search terminating is outside the claim. Trusted: Kani/CBMC/CaDiCaL, z3 4.8.12, the MIR text parser in lib/mirloop.py, reference rays in verif_ref.rs.",
@@ -478,7 +478,7 @@ PROPS = {
     "C06": dict(
         outside="generators that have served earlier queries: C02's reduction; legal-move emptiness: C01",
         explanation='Verdict logic with the generator entry points replaced by arbitrary answers plus argument records; attack-map exactness from a1_union + c01_pawn_attacks + c01_slider + c01_leaper + C11 (M1, M2, m5).',
-        title="Check, checkmate and stalemate verdicts and move annotations are exact", jobs=16, jobs_thorough=8, timeout_thorough=4500,
+        title="Check, checkmate and stalemate verdicts and move annotations are exact", jobs=16, jobs_thorough=8, timeout_thorough=7200,
         technique=TECH + "; verdict functions executed with the generator entry points stubbed by arbitrary results + ghost records of their arguments (wiring lemmas), composed with C01 and the attack-map lemmas",
         level_text="Bounded model checking of the verdict logic: on fully symbolic boards the solver shows in-check <=> king square in the attack map requested for the opponent on this board; checkmate <=> in check and no legal move; stalemate <=> not in check and no legal move; annotation applies the move, classifies the opponent on the successor position, undoes, and stores Checkmate/Check/None accordingly with the board restored. Legal-move emptiness and attack-map exactness are C01's and C11/A1's obligations.",
         level_note="Generator entry points are stubbed (arbitrary results, arguments recorded); 'generators that served earlier queries' is C02's reduction. Trusted: Kani/CBMC/CaDiCaL.",
